@@ -17,17 +17,10 @@ macro_rules
         | (refine ⟨?_, Or.inr ?_⟩ <;> first | omega | (simp_all [expErr, semiErr] <;> omega))
         | (refine ⟨?_, Or.inl ?_⟩
            · first | omega | (simp_all [expErr, semiErr] <;> omega)
-           · first
-               | (intro P hP; spec_all P
-                  have hP' := append_ext hP
-                  (simp_all (maxDischargeDepth := 6) [expErr, semiErr, Expr.flat, Stmt.flat, ExprList.flat, StmtList.flat, PropList.flat, ExprList.flat_snoc, StmtList.flat_snoc, PropList.flat_snoc, Expr.isNone, Stmt.isNone, identsFlat, F_cons_cons, F_cons_append, F_cons_eflat, F_cons_sflat, F_cons_elflat, F_cons_slflat, F_cons_plflat, F_cons_map, F_cons_ite, FL_expectToken_ok, FC_expectToken_ok, cur_expectToken_ok, FL_expectSemi_ok, next_cur, List.append_assoc]) <;> (try solve_by_elim); done)
-               | (refine ⟨by simp_all [Expr.isNone], ?_⟩; intro P hP; spec_all P
-                  have hP' := append_ext hP
-                  (simp_all (maxDischargeDepth := 6) [expErr, semiErr, Expr.flat, Stmt.flat, ExprList.flat, StmtList.flat, PropList.flat, ExprList.flat_snoc, StmtList.flat_snoc, PropList.flat_snoc, Expr.isNone, Stmt.isNone, identsFlat, F_cons_cons, F_cons_append, F_cons_eflat, F_cons_sflat, F_cons_elflat, F_cons_slflat, F_cons_plflat, F_cons_map, F_cons_ite, FL_expectToken_ok, FC_expectToken_ok, cur_expectToken_ok, FL_expectSemi_ok, next_cur, List.append_assoc]) <;> (try solve_by_elim); done)
-               | ((simp_all (maxDischargeDepth := 6) [expErr, semiErr, Expr.flat, Stmt.flat, ExprList.flat, StmtList.flat, PropList.flat, ExprList.flat_snoc, StmtList.flat_snoc, PropList.flat_snoc, Expr.isNone, Stmt.isNone, identsFlat, F_cons_cons, F_cons_append, F_cons_eflat, F_cons_sflat, F_cons_elflat, F_cons_slflat, F_cons_plflat, F_cons_map, F_cons_ite, FL_expectToken_ok, FC_expectToken_ok, cur_expectToken_ok, FL_expectSemi_ok, next_cur, List.append_assoc]) <;> (try solve_by_elim); done)
-               | (spec_all (FC $(Lean.mkIdent `st)); (simp_all (maxDischargeDepth := 6) [expErr, semiErr, Expr.flat, Stmt.flat, ExprList.flat, StmtList.flat, PropList.flat, ExprList.flat_snoc, StmtList.flat_snoc, PropList.flat_snoc, Expr.isNone, Stmt.isNone, identsFlat, F_cons_cons, F_cons_append, F_cons_eflat, F_cons_sflat, F_cons_elflat, F_cons_slflat, F_cons_plflat, F_cons_map, F_cons_ite, FL_expectToken_ok, FC_expectToken_ok, cur_expectToken_ok, FL_expectSemi_ok, next_cur, List.append_assoc]) <;> (try solve_by_elim); done)
-               | (spec_all (FL $(Lean.mkIdent `st)); (simp_all (maxDischargeDepth := 6) [expErr, semiErr, Expr.flat, Stmt.flat, ExprList.flat, StmtList.flat, PropList.flat, ExprList.flat_snoc, StmtList.flat_snoc, PropList.flat_snoc, Expr.isNone, Stmt.isNone, identsFlat, F_cons_cons, F_cons_append, F_cons_eflat, F_cons_sflat, F_cons_elflat, F_cons_slflat, F_cons_plflat, F_cons_map, F_cons_ite, FL_expectToken_ok, FC_expectToken_ok, cur_expectToken_ok, FL_expectSemi_ok, next_cur, List.append_assoc]) <;> (try solve_by_elim); done)
-               | (spec_all (FL $(Lean.mkIdent `st)); simp only [FL_eq] at *; (simp_all (maxDischargeDepth := 6) [expErr, semiErr, Expr.flat, Stmt.flat, ExprList.flat, StmtList.flat, PropList.flat, ExprList.flat_snoc, StmtList.flat_snoc, PropList.flat_snoc, Expr.isNone, Stmt.isNone, identsFlat, F_cons_cons, F_cons_append, F_cons_eflat, F_cons_sflat, F_cons_elflat, F_cons_slflat, F_cons_plflat, F_cons_map, F_cons_ite, FL_expectToken_ok, FC_expectToken_ok, cur_expectToken_ok, FL_expectSemi_ok, next_cur, List.append_assoc]) <;> (try solve_by_elim); done))))
+           · intro P hP; spec_all P
+             have hP' := append_ext hP
+             (simp_all (maxDischargeDepth := 6) [expErr, semiErr, Expr.flat, Stmt.flat, ExprList.flat, StmtList.flat, PropList.flat, ExprList.flat_snoc, StmtList.flat_snoc, PropList.flat_snoc, Expr.isNone, Stmt.isNone, identsFlat, F_cons_cons, F_cons_append, F_cons_eflat, F_cons_sflat, F_cons_elflat, F_cons_slflat, F_cons_plflat, F_cons_map, F_cons_ite, FL_expectToken_ok, FC_expectToken_ok, cur_expectToken_ok, FL_expectSemi_ok, next_cur, List.append_assoc]) <;> (try solve_by_elim)
+             trace_state))))
 
 set_option maxHeartbeats 3200000 in
 theorem tokens_mutual (cfg : PCfg) :
@@ -77,14 +70,14 @@ theorem tokens_mutual (cfg : PCfg) :
     (fun st r => st.elen ≤ r.2.elen ∧ ((r.1.isNone = false ∧ FL r.2 = FC st ++ F r.1.flat) ∨ st.elen < r.2.elen))
     (fun st r => st.elen ≤ r.2.elen ∧ ((r.1.isNone = false ∧ FL r.2 = FC st ++ F r.1.flat) ∨ st.elen < r.2.elen))
     ?_ ?_ ?_ ?_ ?_ ?_ ?_ ?_ ?_ ?_ ?_ ?_ ?_ ?_ ?_ ?_ ?_ ?_ ?_ ?_ ?_ ?_
-  case refine_7 =>
-    intro pE eL ih_pE ih_eL endTy st r h
-    replace ih_pE := curry3 ih_pE; replace ih_eL := curry2 ih_eL
-    dsimp only at ih_pE ih_eL ⊢
+  case refine_6 =>
+    intro pE pL ih_pE ih_pL left st r h
+    replace ih_pE := curry3 ih_pE; replace ih_pL := curry2 ih_pL
+    dsimp only at ih_pE ih_pL ⊢
     obtain ⟨x, st'⟩ := r
     have e0 := FL_eq st
-    pdecompD h [ih_pE, ih_eL, tok_parseFunctionParameters]
-    all_goals clear ih_pE ih_eL
+    pdecompD h [ih_pE, ih_pL, tok_parseFunctionParameters]
+    all_goals clear ih_pE ih_pL
     all_goals tok_close
 
   all_goals sorry
